@@ -17,9 +17,10 @@
 (* the pinned chain info).  The observed state (latestRound, pending) is   *)
 (* adopted after every step so that the rest of a trace stays checkable.   *)
 (* The `shape` of an alarm is computed here from the specification's own   *)
-(* state: the two shapes of F12 are recognised only when the waiter was    *)
-(* parked with the specification's consent and the observed body is exactly*)
-(* what the transcribed watch loop hands out.                              *)
+(* state: the two shapes of F12 (repaired; they are what the handler did   *)
+(* before) are named only when the waiter was parked with the              *)
+(* specification's consent: empty 200 after a skipped round / the round of *)
+(* the first item after a stream failure that left the waiter parked.      *)
 (***************************************************************************)
 EXTENDS HttpRelay, Json
 
@@ -132,8 +133,10 @@ StepWatchItem(e) ==
                      THEN "stream-reset-then-other-round" ELSE "other"
          A0 == IF stream # "conn" THEN {Conf(e, "item consumed while the specification has no open stream")} ELSE {}
          A1 == IF rel # pending THEN {Conf(e, "set of released waiters differs from bh.pending of the specification")} ELSE {}
-         A2 == UNION {IF ObsAbs(rpOf(w)) # [status |-> 200, body |-> ItemBody(latest, x)]
-                         THEN {Conf(e, "released body differs from the specification")} ELSE {} : w \in rel \cap pending}
+         exp(w) == IF ItemServes(latest, x, req[w].round) THEN [status |-> 200, body |-> x]
+                   ELSE Direct(req[w].round, cur, head)
+         A2 == UNION {IF ObsAbs(rpOf(w)) # exp(w)
+                         THEN {Conf(e, "answer of a released request differs from the specification")} ELSE {} : w \in rel \cap pending}
          A3 == UNION {Mon_C01_HTTP_Obs(e, w, req[w].round, rpOf(w), shE(w), shO(w), 0, 0) : w \in rel}
          A4 == IF e.lat # x THEN {Conf(e, "latestRound is not the item's round")} ELSE {}
          pend2 == pending \ rel
@@ -144,14 +147,24 @@ StepWatchItem(e) ==
                        \cup (IF e.np # Cardinality(pend2) THEN {Conf(e, "length of bh.pending differs from the specification")} ELSE {})
   /\ UNCHANGED <<stream, head, cur, scen>>
 
+\* the iteration on a closed channel; e.resps = <<w, response>> of every request that returned
 StepStreamFail(e) ==
   /\ e.ev = "StreamFail"
+  /\ LET rel == {p[1] : p \in Range(e.resps)}
+         rpOf(w) == (CHOOSE p \in Range(e.resps) : p[1] = w)[2]
+         pend2 == pending \ rel
+         A1 == IF rel # pending THEN {Conf(e, "set of released waiters differs from bh.pending of the specification")} ELSE {}
+         A2 == UNION {IF ObsAbs(rpOf(w)) # Direct(req[w].round, cur, head)
+                         THEN {Conf(e, "answer of a released request differs from the specification")} ELSE {} : w \in rel \cap pending}
+         A3 == UNION {Mon_C01_HTTP_Obs(e, w, req[w].round, rpOf(w), "other", "other", 0, 0) : w \in rel}
+     IN /\ pending' = pend2
+        /\ req' = [w \in TraceW |-> IF w \in rel THEN TIdle
+                                    ELSE IF req[w].pc = "parked" THEN [req[w] EXCEPT !.reset = TRUE] ELSE req[w]]
+        /\ alarms' = alarms \cup A1 \cup A2 \cup A3 \cup StateConf(e, 0, pend2)
+                       \cup (IF stream # "conn" THEN {Conf(e, "stream failed while the specification has no open stream")} ELSE {})
   /\ latest' = e.lat
   /\ stream' = "backoff"
-  /\ req' = [w \in TraceW |-> IF req[w].pc = "parked" THEN [req[w] EXCEPT !.reset = TRUE] ELSE req[w]]
-  /\ alarms' = alarms \cup StateConf(e, 0, pending)
-                 \cup (IF stream # "conn" THEN {Conf(e, "stream failed while the specification has no open stream")} ELSE {})
-  /\ UNCHANGED <<pending, head, cur, scen>>
+  /\ UNCHANGED <<head, cur, scen>>
 
 StepReconnect(e) ==
   /\ e.ev \in {"Reconnect", "IdleReconn"}
